@@ -63,7 +63,7 @@ impl Snap {
 				None => "-".into(),
 			};
 			s.push_str(&format!(
-				"ch{:x}[{}-{} cap{:?} {} {}{}] ",
+				"ch{}[{}-{} cap{:?} {} {}{}] ",
 				scid >> 40,
 				u.node_name(&c.n1),
 				u.node_name(&c.n2),
@@ -502,7 +502,12 @@ pub fn declarative(u: &Universe, order: &[usize]) -> Snap {
 	s
 }
 
-/// Labels of pool members whose acceptance could depend on order through equal timestamps.
+/// Whether the pool contains a channel announcement that conflicts with another one.
+pub fn has_conflict(u: &Universe, pool: &[usize]) -> bool {
+	pool.iter().any(|i| u.msgs[*i].class.starts_with("conflict:"))
+}
+
+/// Whether the final graph could legitimately depend on the order through equal timestamps.
 pub fn has_timestamp_ties(u: &Universe, pool: &[usize]) -> bool {
 	let mut seen: BTreeSet<(u8, Vec<u8>, u32)> = BTreeSet::new();
 	for &i in pool {
